@@ -231,6 +231,16 @@ class StmtsMixin:
                 st.ghost["@decl:" + s.target.id] = ann
             return [(st, "fall", None)]
         out = []
+        if isinstance(s.target, ast.Attribute) and isinstance(s.target.value, ast.Name) and ann is not None and ann[0] == "dict":
+            # `self.f: Dict[K, V] = {...}`: the literal is built with the field's own type (the sort hints of the field, e.g. Optional[int] keys), not the re-parsed annotation
+            ov = st.env.get(s.target.value.id)
+            if ov is not None and ov.ty[0] == "ref":
+                try:
+                    fty = strip_opt(field_type(ov.ty[1], s.target.attr))
+                    if fty[0] == "dict":
+                        ann = fty
+                except Unsupported:
+                    pass
         self.pending_ann = ann
         try:
             vals = self.ev(s.value, st, d)
